@@ -43,7 +43,8 @@ type Universe struct {
 	MockCl     *testutils.MockCluster // nil on unistore
 	StoreIDs   []uint64
 
-	Clients []*ClientStore
+	Clients   []*ClientStore // guarded by clientsMu (NewClient may be called from fault hooks inside concurrent RPCs)
+	clientsMu sync.Mutex
 	// Truth is an un-interposed, un-recorded store for ground-truth RPCs.
 	truth *tikv.KVStore
 
@@ -52,8 +53,8 @@ type Universe struct {
 	bg             atomic.Int64 // background goroutines of transactions begun through the harness
 	closed         bool
 	asyncGuard     sync.RWMutex // unistore only: no TSO is issued while an async-commit/1PC prewrite executes (see Net.forward)
-	topoMu         sync.Mutex // serializes topology changes issued from concurrent RPC hooks
-	borders        [][]byte   // raw split keys currently in effect (guarded by topoMu)
+	topoMu         sync.Mutex   // serializes topology changes issued from concurrent RPC hooks
+	borders        [][]byte     // raw split keys currently in effect (guarded by topoMu)
 	panicMu        sync.Mutex
 	panics         []BackendPanic
 }
@@ -140,9 +141,25 @@ func (u *Universe) SetDefaultDecider(d Decider) {
 	u.defaultDecider.Store(&d)
 }
 
+// clients returns a snapshot of the fully constructed clients.
+func (u *Universe) clients() []*ClientStore {
+	u.clientsMu.Lock()
+	defer u.clientsMu.Unlock()
+	out := make([]*ClientStore, 0, len(u.Clients))
+	for _, c := range u.Clients {
+		if c != nil {
+			out = append(out, c)
+		}
+	}
+	return out
+}
+
 // NewClient adds a client KVStore to the universe.
 func (u *Universe) NewClient(opts ...tikv.Option) (*ClientStore, error) {
+	u.clientsMu.Lock()
 	id := len(u.Clients)
+	u.Clients = append(u.Clients, nil) // reserve the id
+	u.clientsMu.Unlock()
 	net := &Net{u: u, id: id, inner: u.backClient}
 	p := &PD{Client: u.backPD, u: u, id: id, net: net}
 	st, err := tikv.NewTestTiKVStore(net, p, nil, nil, 0, opts...)
@@ -150,7 +167,9 @@ func (u *Universe) NewClient(opts ...tikv.Option) (*ClientStore, error) {
 		return nil, err
 	}
 	c := &ClientStore{ID: id, Store: st, Net: net, PD: p, u: u}
-	u.Clients = append(u.Clients, c)
+	u.clientsMu.Lock()
+	u.Clients[id] = c
+	u.clientsMu.Unlock()
 	return c, nil
 }
 
@@ -184,7 +203,7 @@ func (u *Universe) Quiet() bool {
 	if u.bg.Load() != 0 {
 		return false
 	}
-	for _, c := range u.Clients {
+	for _, c := range u.clients() {
 		if c.Net.Inflight() != 0 {
 			return false
 		}
@@ -227,7 +246,7 @@ func (u *Universe) Close() {
 		return
 	}
 	u.closed = true
-	for _, c := range u.Clients {
+	for _, c := range u.clients() {
 		c.Store.Close()
 	}
 	u.truth.Close()
